@@ -100,8 +100,8 @@ fn exec_line(ctx: &mut Ctx, line: &str) -> String {
             let (v, m) = parse_line(line);
             if second == "cfg" {
                 ctx.c07 = None;
-                match util::guarded_res(|| c07::open_cfg(&m)) { Ok(c) => { ctx.c07 = Some(c); "ok".into() } Err(e) => { if std::env::var("VERIF_ERR_MSG").is_ok() { eprintln!("ERR: {}", e); } "err-open".into() } }
-            } else if second == "hcfg" { ctx.c07h = None; ctx.c07h = Some(c07::open_hcfg()); "ok".into() }
+                match util::guarded_res(|| c07::open_cfg(&m)) { Ok(c) => { ctx.c07 = Some(c); "ok".into() } Err(e) => { if std::env::var("VERIF_ERR_MSG").is_ok() { eprintln!("ERR: {}", e); } if e.starts_with("MISMATCH") { e } else { "err-open".into() } } }
+            } else if second == "hcfg" { ctx.c07h = None; ctx.c07h = Some(c07::open_hcfg(&m)); "ok".into() }
             else if second == "hop" { let verb = v.get(2).cloned().unwrap_or_default(); match ctx.c07h.as_ref() { Some(c) => c07::exec_hop(c, &verb, &m), None => "skip".into() } }
             else {
                 let verb = v.get(2).cloned().unwrap_or_default();
